@@ -33,6 +33,9 @@ type C14Cfg struct {
 	HandlerSends bool       `json:"handlerSends"`
 	Strategy     string     `json:"strategy"` // random | pct1 | pct2 | pct3 | delay
 	Ticks        int        `json:"ticks"`
+	// GCEpochs, when set: the buffer's expiry is this many ticks of its clock (production: 6), so that its
+	// collector runs - and started topics may legitimately be forgotten - within a run of a few ticks
+	GCEpochs int `json:"gcEpochs,omitempty"`
 }
 
 func genC14(seed uint64, tier string) C14Cfg {
@@ -56,6 +59,10 @@ func genC14(seed uint64, tier string) C14Cfg {
 		}
 		c.SendTasks = append(c.SendTasks, ts)
 	}
+	if rg := prng.Derive(seed, "gc"); rg.Bool(0.35) {
+		c.GCEpochs = rg.Range(2, 3) // (the buffer insists on an expiry of at least two sweep periods)
+		c.Ticks = rg.Intn(8)
+	}
 	return c
 }
 
@@ -65,6 +72,7 @@ type c14Handler struct {
 	box    *msg.Box
 	sends  bool
 	topics [][]byte
+	onSend func(topic []byte) // told about every Send the handler is about to make
 }
 
 func (h *c14Handler) HandleMessage(m *tss.IncMessage) {
@@ -76,6 +84,9 @@ func (h *c14Handler) HandleMessage(m *tss.IncMessage) {
 	h.mu.Unlock()
 	if h.sends {
 		// as the orchestrator does when it acknowledges a broadcast
+		if h.onSend != nil {
+			h.onSend(m.Topic)
+		}
 		h.box.Send(uint8(tss.MsgTypeMPC), m.Topic, []byte("ack"), 1)
 	}
 }
@@ -185,9 +196,20 @@ func runC14(t *testing.T, spec RunSpec) *RunResult {
 		sched := simsync.NewSched()
 		defer sched.Close()
 		tick := make(chan time.Time)
+		gcEpochs := 6
+		if cfg.GCEpochs > 0 {
+			gcEpochs = cfg.GCEpochs
+		}
+		epoch := 0                      // ticks delivered to the buffer's clock so far
+		firstSendEpoch := map[int]int{} // topic -> epoch at which the first Send on it was about to begin
+		noteSend := func(tp int) {
+			if _, ok := firstSendEpoch[tp]; !ok {
+				firstSendEpoch[tp] = epoch
+			}
+		}
 		h := &c14Handler{sends: cfg.HandlerSends}
 		box := &msg.Box{
-			Logger: NewCountLogger(), MaxInFlightTopicsBySender: 10000, GCSweep: 20 * time.Second, GCExpire: 2 * time.Minute,
+			Logger: NewCountLogger(), MaxInFlightTopicsBySender: 10000, GCSweep: 20 * time.Second, GCExpire: time.Duration(gcEpochs) * 20 * time.Second,
 			NewTicker:      func(time.Duration) *time.Ticker { return &time.Ticker{C: tick} },
 			ForwardSend:    func(msgType uint8, topic []byte, m []byte, to ...tss.UniversalID) { simsync.Yield(simsync.OpOther, 2) },
 			MessageHandler: h,
@@ -196,6 +218,13 @@ func runC14(t *testing.T, spec RunSpec) *RunResult {
 		var topics [][]byte
 		for i := 0; i < cfg.Topics; i++ {
 			topics = append(topics, sha([]byte(fmt.Sprintf("topic-%d", i))))
+		}
+		h.onSend = func(topic []byte) {
+			for i := range topics {
+				if string(topics[i]) == string(topic) {
+					noteSend(i)
+				}
+			}
 		}
 		// arrival order per (topic, sender) = order of that sender's calls
 		arrival := map[string][]string{}
@@ -223,6 +252,7 @@ func runC14(t *testing.T, spec RunSpec) *RunResult {
 			}
 			tasks = append(tasks, sched.Go(fmt.Sprintf("send%d", ti), func() {
 				for _, tp := range ts {
+					noteSend(tp)
 					box.Send(uint8(tss.MsgTypeMPC), topics[tp], []byte("proto"), 1)
 				}
 			}))
@@ -265,6 +295,7 @@ func runC14(t *testing.T, spec RunSpec) *RunResult {
 				record(netsim.Action{K: "tick"})
 				select {
 				case tick <- time.Now():
+					epoch++
 				default: // the clock goroutine does not exist before the first use of the box
 				}
 				continue
@@ -294,6 +325,18 @@ func runC14(t *testing.T, spec RunSpec) *RunResult {
 				}
 			}
 			res.Probes["released-only-by-extra-send"] = len(h.log) - mid
+			// a message must not depend on a FURTHER Send for its hand-over (the party may never send on the topic
+			// again) - unless the topic may legitimately have been forgotten: its last Send is at least as recent as
+			// the epoch at which its first Send began, and the collector forgets a topic only when more than the
+			// expiry (in epochs) has passed since
+			for _, id := range h.log[mid:] {
+				var tp int
+				fmt.Sscanf(id, "%d/", &tp)
+				if fe, ok := firstSendEpoch[tp]; ok && epoch-fe <= gcEpochs {
+					viol("withheld", fmt.Sprintf("message %s was received on a started topic and handed to the dispatcher only when the local party sent on that topic once more (the topic began to send at epoch %d, it is epoch %d now, the buffer forgets a topic after more than %d epochs); hand-offs before the further send: %v", id, fe, epoch, gcEpochs, h.log[:mid]))
+					break
+				}
+			}
 			count := map[string]int{}
 			order := map[string][]string{}
 			for _, id := range h.log {
